@@ -1,1 +1,100 @@
-//! Documented operand/result footprint of every instruction (design/footprint.tsv).
+//! Documented operand/result footprint of every instruction (design/footprint.tsv), compiled
+//! from the `///` comments. Used by C01 (non-triviality, envelope), C10 (frame / no
+//! fabrication), C15 (size operands) and by the value checks to decide "operands present".
+
+use crate::spec::StateSpec;
+use std::collections::BTreeMap;
+
+pub const TABLE: &str = include_str!("../../design/footprint.tsv");
+
+#[derive(Clone, Debug)]
+pub struct Footprint {
+    pub name: String,
+    /// (component, minimal depth)
+    pub need: Vec<(&'static str, usize)>,
+    pub shrink: Vec<&'static str>,
+    pub write: Vec<&'static str>,
+    pub side: Vec<String>,
+    /// INTEGER position (0 = top) of a size-like operand
+    pub size_at: Option<usize>,
+    pub owner: String,
+    pub note: String,
+}
+
+pub fn comp(abbrev: &str) -> &'static str {
+    match abbrev {
+        "BOOL" => "BOOLEAN",
+        "INT" => "INTEGER",
+        "FLOAT" => "FLOAT",
+        "NAME" => "NAME",
+        "CODE" => "CODE",
+        "EXEC" => "EXEC",
+        "BVEC" => "BOOLVECTOR",
+        "IVEC" => "INTVECTOR",
+        "FVEC" => "FLOATVECTOR",
+        "INDEX" => "INDEX",
+        "IN" => "INPUT",
+        "OUT" => "OUTPUT",
+        "GRAPH" => "GRAPH",
+        x => panic!("unknown stack abbreviation {}", x),
+    }
+}
+
+pub fn table() -> BTreeMap<String, Footprint> {
+    let mut m = BTreeMap::new();
+    for line in TABLE.lines() {
+        if line.starts_with('#') || line.starts_with("name\t") || line.trim().is_empty() {
+            continue;
+        }
+        let f: Vec<&str> = line.split('\t').collect();
+        if f.len() < 8 {
+            continue;
+        }
+        let list = |s: &str| -> Vec<&'static str> {
+            if s == "-" {
+                vec![]
+            } else {
+                s.split(',').map(|x| comp(x.trim())).collect()
+            }
+        };
+        let need = if f[1] == "-" {
+            vec![]
+        } else {
+            f[1].split(',')
+                .map(|x| {
+                    let (a, b) = x.trim().split_once(':').unwrap();
+                    (comp(a), b.parse::<usize>().unwrap())
+                })
+                .collect()
+        };
+        let size_at = f[5].strip_prefix("INT@").and_then(|x| x.parse().ok());
+        m.insert(
+            f[0].to_string(),
+            Footprint {
+                name: f[0].to_string(),
+                need,
+                shrink: list(f[2]),
+                write: list(f[3]),
+                side: if f[4] == "-" { vec![] } else { f[4].split(',').map(|x| x.to_string()).collect() },
+                size_at,
+                owner: f[6].to_string(),
+                note: f[7].to_string(),
+            },
+        );
+    }
+    m
+}
+
+thread_local! {
+    static CACHE: BTreeMap<String, Footprint> = table();
+}
+pub fn get(name: &str) -> Option<Footprint> {
+    CACHE.with(|c| c.get(name).cloned())
+}
+
+impl Footprint {
+    /// Are the documented minimal operand depths present?
+    pub fn needs_met(&self, s: &StateSpec) -> bool {
+        self.need.iter().all(|(c, n)| s.depth_of(c) >= *n)
+    }
+}
